@@ -74,7 +74,192 @@ class TU:
         self._callers = None
         self.fid_alias = {}
         self.collapsed = []
+        self.inlined = []
         self._collapse_forwarders()
+        self._inline_lock_closures()
+
+    # ---- `withLock(mutex, [&]{ ... })` ----------------------------------------------------------------------------------------
+    def _lock_runner_shape(self, h):
+        """h is `template<M, F> void h(M & m, F && f) { std::lock_guard<M> g(m); f(); }` (any lock class, any parameter order):
+        (DeclStmt node of the lock, index of the mutex parameter, index of the closure parameter) or None."""
+        if h.kind not in ('free', 'method') or h.body is None or h.nodes[h.body]['cls'] != 'CompoundStmt' or len(h.params) != 2:
+            return None
+        st = [x for x in h.kids(h.body) if not (h.nodes[x]['cls'] == 'DeclStmt' and not h.nodes[x].get('decls')) and h.nodes[x]['cls'] != 'NullStmt']
+        if len(st) != 2 or h.nodes[st[0]]['cls'] != 'DeclStmt' or len(h.nodes[st[0]].get('decls', [])) != 1:
+            return None
+        v = h.nodes[st[0]]['decls'][0]
+        init = h.strip(v['init']) if v.get('init') else None
+        if init is None or not h.is_construct(init):
+            return None
+        cal = h.callee(init) or {}
+        if short(cal.get('cls', '')) not in ('std::lock_guard', 'std::unique_lock', 'std::scoped_lock') and cal.get('cls', '') not in ('std::lock_guard', 'std::unique_lock', 'std::scoped_lock'):
+            return None
+        a = [x for x in h.nodes[init].get('args', []) if h.nodes[x]['cls'] != 'CXXDefaultArgExpr']
+        if len(a) != 1:
+            return None
+        ma = h.strip_all_casts(a[0])
+        pids = [pp['id'] for pp in h.params]
+        if h.nodes[ma]['cls'] != 'DeclRefExpr' or (h.decl(ma) or {}).get('id') not in pids:
+            return None
+        j = pids.index(h.decl(ma)['id'])
+        c = st[1]
+        if h.nodes[c]['cls'] == 'ReturnStmt':
+            return None
+        c = h.strip(c)
+        o = h.nodes[c]
+        if o['cls'] != 'CXXOperatorCallExpr' or o.get('op') != '()' or o.get('obj') is None or len(h.call_args(c)) != 0:
+            return None
+        fa = h.value_source(o['obj'])
+        if h.nodes[fa]['cls'] != 'DeclRefExpr' or (h.decl(fa) or {}).get('id') not in pids or pids.index(h.decl(fa)['id']) == j:
+            return None
+        return st[0], j, pids.index(h.decl(fa)['id']), ma
+
+    @staticmethod
+    def _remap_node(o, mp):
+        o = json.loads(json.dumps(o))
+        for k in ('kids', 'args', 'placement'):
+            if k in o:
+                o[k] = [mp(x) for x in o[k]]
+        for k in ('obj', 'calleeExpr', 'construct'):
+            if k in o and o[k]:
+                o[k] = mp(o[k])
+        for c in o.get('captures', []):
+            if c.get('init'):
+                c['init'] = mp(c['init'])
+        for v in o.get('decls', []):
+            if v.get('init'):
+                v['init'] = mp(v['init'])
+        return o
+
+    def _inline_lock_closures(self):
+        """A closure written in place and handed to a run-under-lock helper is the critical section written as a block: the call is
+        replaced, in the writer's CFG and node table, by the helper's lock object, the closure's body and the lock's destruction."""
+        if os.environ.get('EPP_NO_INLINE'):
+            return
+        for P in list(self.fns):
+            for _ in range(8):
+                if not self._inline_one(P):
+                    break
+
+    def _inline_one(self, P):
+        pm = None
+        for b, blk in list(P.blocks.items()):
+            for i, e in enumerate(blk['elems']):
+                n = e.get('n')
+                if e['k'] != 'stmt' or not n or P.nodes[n]['cls'] != 'CallExpr':
+                    continue
+                hs = P.callee_fns(n)
+                if len(hs) != 1 or hs[0] is P:
+                    continue
+                h = hs[0]
+                shape = self._lock_runner_shape(h)
+                if shape is None:
+                    continue
+                lockstmt, j, k, mparam = shape
+                args = P.call_args(n)
+                if len(args) != 2:
+                    continue
+                lx = P.value_source(args[k])
+                if P.nodes[lx]['cls'] != 'LambdaExpr':
+                    continue
+                L = self.by_id.get(P.nodes[lx].get('fid'))
+                if L is None or L.params or L.parent_id != P.id:
+                    continue
+                if any(not (c.get('byref') or c.get('this')) for c in P.nodes[lx].get('captures', [])):
+                    continue
+                if any(o['cls'] == 'ReturnStmt' and o.get('kids') for o in L.nodes.values()):
+                    continue
+                # the call is a statement of its own
+                pm = pm or P.parent_map()
+                q = pm.get(n)
+                while q is not None and P.nodes[q]['cls'] in ('ExprWithCleanups', 'ParenExpr', 'ImplicitCastExpr'):
+                    q = pm.get(q)
+                if q is not None and P.nodes[q]['cls'] not in ('CompoundStmt',):
+                    continue
+                self._splice(P, b, i, n, h, lockstmt, mparam, args[j], L)
+                self.inlined.append((P.skey, h.skey, P.nloc(n)))
+                if os.environ.get('EPP_DEBUG_COLLAPSE'):
+                    import sys
+                    print('inline closure of %s run by %s at %s' % (P.skey, h.skey, P.nloc(n)), file=sys.stderr)
+                return True
+        return False
+
+    def _splice(self, P, b, i, call, h, lockstmt, mparam, marg, L):
+        offL = max(P.nodes) + 1
+        mapL = lambda x: (x + offL) if x else x
+        for nid, o in L.nodes.items():
+            no = self._remap_node(o, mapL)
+            if no['cls'] == 'ReturnStmt':
+                no['cls'] = 'NullStmt'
+            P.nodes[nid + offL] = no
+        offH = max(P.nodes) + 1
+        sub = [lockstmt] + h.descendants(lockstmt)
+        mapH = lambda x: marg if x == mparam else ((x + offH) if x else x)
+        for nid in sub:
+            if nid == mparam:
+                continue
+            P.nodes[nid + offH] = self._remap_node(h.nodes[nid], mapH)
+        lockvar = h.nodes[lockstmt]['decls'][0]
+        dtor = None
+        for hb in h.blocks.values():
+            for he in hb['elems']:
+                if he['k'] == 'autodtor' and he.get('var') == lockvar['id']:
+                    dtor = dict(he)
+        offB = max(P.blocks) + 1
+        mapB = lambda x: (x + offB) if x is not None else None
+        tail = offB + max(L.blocks) + 1
+        B = P.blocks[b]
+        T = {k: v for k, v in B.items() if k != 'elems'}
+        T['id'] = tail
+        T['elems'] = B['elems'][i + 1:]
+        T['succ'] = list(B['succ'])
+        P.blocks[tail] = T
+        lock_elems = []
+        subset = set(sub) - {mparam}
+        for hb_id in sorted(h.blocks, reverse=True):
+            for he in h.blocks[hb_id]['elems']:
+                if he['k'] == 'stmt' and he.get('n') in subset:
+                    lock_elems.append({'k': 'stmt', 'n': he['n'] + offH})
+        if not any(x['n'] == lockstmt + offH for x in lock_elems):
+            lock_elems.append({'k': 'stmt', 'n': lockstmt + offH})
+        B['elems'] = B['elems'][:i] + lock_elems
+        for kk in ('cond', 'fullcond', 'term', 'termcls'):
+            B.pop(kk, None)
+        B['succ'] = [mapB(L.entry)]
+        for lb, blk in L.blocks.items():
+            nb = {'id': lb + offB, 'elems': [], 'succ': [mapB(x) for x in blk.get('succ', [])]}
+            for e in blk['elems']:
+                ne = dict(e)
+                if ne.get('n'):
+                    ne['n'] = ne['n'] + offL
+                nb['elems'].append(ne)
+            for kk in ('cond', 'fullcond', 'term'):
+                if blk.get(kk):
+                    nb[kk] = blk[kk] + offL
+            if blk.get('termcls'):
+                nb['termcls'] = blk['termcls']
+            if lb == L.exit:
+                if dtor:
+                    nb['elems'].append(dtor)
+                nb['succ'] = [tail]
+            P.blocks[lb + offB] = nb
+        if P.exit == b:
+            P.exit = tail
+        # the call itself is gone: its node stays as an inert parent of the argument expressions
+        co = P.nodes[call]
+        P.nodes[call] = {'cls': 'InlinedClosureCall', 'kids': list(co.get('kids', [])) or list(co.get('args', [])), 'loc': co.get('loc'), 't': co.get('t'), 'vk': co.get('vk')}
+        # the closure's own lambdas now belong to the writer; the closure itself is no function of its own any more
+        for g in self.fns:
+            if g.parent_id == L.id:
+                g.parent_id = P.id
+        self.fns = [g for g in self.fns if g is not L]
+        for kls in self.lambdas_of.values():
+            if L in kls:
+                kls.remove(L)
+        self.by_key[L.skey] = [g for g in self.by_key.get(L.skey, []) if g is not L]
+        for attr in ('_parent', '_pos', '_preds', '_dom', '_pdom', '_reach', '_decl_of_var'):
+            setattr(P, attr, None)
+        self._callers = None
 
     def _collapse_forwarders(self):
         """A member function whose whole body is `return g(*this, own parameters...)` (or `this->g(own parameters...)`) where g is a
